@@ -143,7 +143,7 @@ func c19BadField(t *rapid.T, dt storage.DataType) (string, bool) {
 	case storage.TypeBigInt:
 		return rapid.SampledFrom([]string{"abc", "", "1.5", "0x10", "1_000", "0b1", "0o7", "9223372036854775808", "12 ", "true"}).Draw(t, "badbig"), true
 	case storage.TypeBoolean:
-		return rapid.SampledFrom([]string{"yes", "no", "", "2", "tru", "ff", "10", " true", "y", "-1"}).Draw(t, "badbool"), true
+		return rapid.SampledFrom([]string{"yes", "no", "", "2", "tru", "ff", "10", " true", "y", "-1", "Yes", "Yes", "No", "N/A", "N/A", "TRUE1", "Y"}).Draw(t, "badbool"), true
 	}
 	return "", false
 }
